@@ -370,6 +370,7 @@ static bool case_c14(const Plan& pl0, Stats& st, Violation& v) {
   }
   int64_t first_unguarded = -1; Plan first_exp;
   for (int rep = 0; rep < 2; ++rep) {
+    if (g_stop) { g_aborted = true; return false; }          // time box used up: abandon the case (it is not counted)
     sim_status_run(g_cur_run, 6 + (uint64_t)rep, 0, 0);
     rt_set_env(env_twin(pl.env) + (uint64_t)rep);
     TaskOut setup; std::vector<TaskOut> outs((size_t)pl.ntasks);
